@@ -242,7 +242,10 @@ impl Script {
         context
             .global_declaration_instantiation(&codeblock)
             .inspect_err(|_| {
-                context.vm.pop_frame();
+                // Release the frame together with its `this`/function slots and registers.
+                if let Some(frame) = context.vm.pop_frame() {
+                    context.vm.stack.truncate_to_frame(&frame);
+                }
             })?;
 
         Ok(())
